@@ -5,6 +5,11 @@ import (
 	"fmt"
 	"strings"
 	"sync"
+
+	"github.com/yuin/goldmark/ast"
+	"github.com/yuin/goldmark/parser"
+	"github.com/yuin/goldmark/text"
+	"github.com/yuin/goldmark/util"
 )
 
 func init() { runners["C08"] = runC08; runners["C09"] = runC09 }
@@ -112,6 +117,11 @@ func runC08(c *Ctx) {
 	for _, e := range loadSpec() {
 		specHTML[e.Markdown] = e.HTML
 	}
+	nbq := 20000
+	if !c.Quick() {
+		nbq = 400000
+	}
+	bqCases(c, nbq)
 	lawSweep(c, cfgs, items, "blockquote-law", func(d []byte) bool {
 		return !bytes.ContainsAny(d, "\t\r") && !isBlankDoc(d)
 	}, func(m mdT, d []byte) (string, bool) {
@@ -178,6 +188,11 @@ func runC09(c *Ctx) {
 			pool = append(pool, it.doc)
 		}
 	}
+	nrefs := 5000
+	if !c.Quick() {
+		nrefs = 100000
+	}
+	refsCases(c, nrefs)
 	// law 1: A / heading / B
 	var pairs []docItem
 	var pairA, pairB [][]byte
@@ -260,9 +275,10 @@ func runC09(c *Ctx) {
 		if !closedAtEnd(m, body) {
 			return "", false
 		}
-		// the moved block must consist of link reference definitions only: they render to nothing
+		// the moved block consists of link reference definitions only, by construction (the
+		// generator uses spellings the specification accepts); they must render to nothing
 		if alone, _, _ := convertSafe(m.md, defs); len(alone) != 0 {
-			return "", false
+			return fmt.Sprintf("a block of valid link reference definitions %.150q renders to %.200q instead of nothing", defs, alone), true
 		}
 		top := append(append(append([]byte{}, defs...), '\n'), body...)
 		end := append(append(append([]byte{}, body...), []byte("\n\n")...), defs...)
@@ -276,4 +292,66 @@ func runC09(c *Ctx) {
 		}
 		return "", true
 	})
+}
+
+// correspondence of the block-quote marker code through the public BlockParser API
+func bqCases(c *Ctx, n int) {
+	alpha := []byte{' ', ' ', '\t', '>', '>', 'a', '\n', '-'}
+	bq := parser.NewBlockquoteParser()
+	for i := 0; i < n; i++ {
+		src := randBytes(c.R, alpha, 9)
+		if len(src) == 0 {
+			continue
+		}
+		nl := c.R.Intn(2)
+		r := text.NewReader(src)
+		for k := 0; k < nl; k++ {
+			r.AdvanceLine()
+		}
+		res := ""
+		func() {
+			defer func() {
+				if x := recover(); x != nil {
+					res = "PANIC"
+				}
+			}()
+			if line, _ := r.PeekLine(); line == nil {
+				res = "skip"
+				return
+			}
+			node, _ := bq.Open(ast.NewDocument(), r, parser.NewContext())
+			l, p := r.Position()
+			res = fmt.Sprintf("%s@%d,%s", btoa(node != nil), l, segStr(p))
+		}()
+		if res == "skip" {
+			continue
+		}
+		c.Case("BqProcess", []string{hx(src), itoa(nl)}, res)
+	}
+}
+
+// correspondence of the reference map through the public parser.Context API
+func refsCases(c *Ctx, n int) {
+	labels := []string{"foo", "Foo", "FOO", " foo ", "foo  bar", "Foo\tBar", "foo\nbar", "ΑΓΩ", "αγω", "ẞ", "ss", "SS", "a*b", "", " ", "µ", "Μ", "x"}
+	for i := 0; i < n; i++ {
+		pc := parser.NewContext()
+		var prog, obs []string
+		for k := 1 + c.R.Intn(10); k > 0; k-- {
+			l := []byte(c.R.PickS(labels))
+			if c.R.Intn(3) > 0 {
+				d := []byte(fmt.Sprintf("/d%d", c.R.Intn(50)))
+				pc.AddReference(parser.NewReference(l, d, nil))
+				prog = append(prog, "a"+hx(l)+":"+hx(d))
+			} else {
+				r, ok := pc.Reference(util.ToLinkReference(l))
+				prog = append(prog, "q"+hx(l))
+				if ok {
+					obs = append(obs, "h"+hx(r.Destination()))
+				} else {
+					obs = append(obs, "n")
+				}
+			}
+		}
+		c.Case("RefsProg", []string{strings.Join(prog, " ")}, strings.Join(obs, "|"))
+	}
 }
